@@ -26,7 +26,14 @@ WHOLE_DEG_ND = [4, 5, 6, 8, 9, 10, 12, 15, 18, 24]
 
 
 # =======================================================================================
-def gen_recipe(rng, fmt, tier="quick"):
+DST_EDGES = {      # wall-clock hours that do not exist / exist twice in these zones (file times are UTC; they must not care)
+    "Pacific/Auckland": ["2021-09-26T01:30:00", "2021-04-04T01:30:00"],
+    "America/Los_Angeles": ["2021-03-14T01:30:00", "2021-11-07T00:30:00"],
+    "Europe/London": ["2021-03-28T00:30:00", "2021-10-31T00:30:00"],
+}
+
+
+def gen_recipe(rng, fmt, tier="quick", tz=None):
     base = fmt.split("_")[0]
     nf = rng.randint(3, 9)
     nd = rng.choice([4, 5, 6, 8, 9, 12])
@@ -43,7 +50,7 @@ def gen_recipe(rng, fmt, tier="quick"):
         "freq": {"kind": rng.choice(["log", "log", "lin"]), "f0": rng.choice([0.04, 0.05, 0.0625]), "r": rng.choice([1.1, 1.2, 1.3]), "df": rng.choice([0.02, 0.03])},
         "dir": {"dir0": rng.choice([0.0, 0.0, 5.0, 10.0]), "order": rng.choice(["asc", "asc", "desc", "rot", "shuf"]), "shift": rng.randint(1, 3), "seed": rng.randrange(100)},
         "dtype": rng.choice(["float64", "float64", "float32"]),
-        "data": {"kind": rng.choice(["peaked", "random", "decades", "int_bumps", "int_bumps", "huge", "tiny", "single_bin"]), "seed": rng.randrange(10**6), "zero_at": -1, "nan_at": -1},
+        "data": {"kind": rng.choice(["peaked", "random", "decades", "int_bumps", "int_bumps", "huge", "tiny", "single_bin", "gapped"]), "seed": rng.randrange(10**6), "zero_at": -1, "nan_at": -1},
         "spec_last": True, "round_freq": 5,
         "t0": rng.choice(["2020-01-01T00:00:00", "1999-12-31T23:00:00", "2021-06-15T12:30:00", "1969-12-31T22:00:00", "2040-02-28T23:00:00", "1950-06-30T23:59:00"]),
         "time_irregular": rng.random() < 0.2,
@@ -137,6 +144,10 @@ def gen_recipe(rng, fmt, tier="quick"):
     if npos > 0 and rng.random() < 0.25 and base != "funwave":
         r["data"]["calm_at"] = rng.randrange(npos)
         r["data"]["calm_scale"] = rng.choice([1e-5, 1e-7, 1e-9, 1e-15])
+    if tz in DST_EDGES and rng.random() < 0.6:
+        r["t0"] = rng.choice(DST_EDGES[tz])
+        r["dt_s"] = rng.choice([1800, 3600, 600])
+        r["time_irregular"] = False
     if base in ("json", "swan") and rng.random() < 0.08:     # (NETCDF3 has no 64-bit integers to hold such times)
         # whole-second time stamps outside the range of nanosecond datetimes
         r["time_unit"] = "s"
@@ -150,6 +161,7 @@ def gen_recipe(rng, fmt, tier="quick"):
 
 def gen_plan(rng, tier="quick"):
     steps = []
+    tz = rng.choice([None, None, None, "Pacific/Auckland", "America/Los_Angeles", "Europe/London", "Asia/Kolkata"])
     nfiles = rng.randint(1, 3)
     files = {}
     for _ in range(rng.randint(2, 7 if tier == "quick" else 12)):
@@ -159,7 +171,7 @@ def gen_plan(rng, tier="quick"):
             slot = rng.randrange(nfiles)
             name = rng.choice([f"f{slot}.{EXT[fmt]}", f"f{slot}.{EXT[fmt]}", f"run.v1.2.f{slot}.{EXT[fmt]}", f"a.gz.f{slot}.{EXT[fmt]}"])
             kw = {}
-            recipe = gen_recipe(rng, fmt, tier)
+            recipe = gen_recipe(rng, fmt, tier, tz)
             nt = dict((k, n) for k, n in recipe["dims"]).get("time", 1)
             if fmt.startswith(("swan", "octopus")) and rng.random() < 0.45:
                 kw["ntime"] = rng.choice([1, 2, 3, nt, nt + 1])
@@ -181,7 +193,7 @@ def gen_plan(rng, tier="quick"):
     if files and steps[-1]["op"] != "read":
         steps.append({"op": "read", "file": rng.choice(sorted(files)), "short_reads": False})
     return {"engine": NAME, "steps": steps, "bufsize": rng.choice([32, 64, 256, 1024, 8192]),
-            "tz": rng.choice([None, None, None, "Pacific/Auckland", "America/Los_Angeles", "Asia/Kolkata"])}
+            "tz": tz}
 
 
 def shape(plan):
